@@ -26,8 +26,9 @@ cd /verif
 verdicts=""
 for c in $CHECKS; do
   VERIF_REPO=$WT ./check $c --tier quick > /tmp/seed/$NAME.check.$c.log 2>&1; rc=$?
-  line=$(grep -E "^VIOLATION|^UNDECIDED" /tmp/seed/$NAME.check.$c.log | head -1 | cut -c1-300)
-  ob=$(grep -E "^  obligation" /tmp/seed/$NAME.check.$c.log | head -3 | cut -c1-400 | tr '\n' ';')
+  line=$(grep -E "^VIOLATION" /tmp/seed/$NAME.check.$c.log | head -1 | cut -c1-300)
+  [ -z "$line" ] && line=$(grep -E "^UNDECIDED" /tmp/seed/$NAME.check.$c.log | head -1 | cut -c1-300)
+  ob=$(grep -E "^  (obligation|bounded stand-in \(|replay grid \()" /tmp/seed/$NAME.check.$c.log | head -3 | cut -c1-400 | tr '\n' ';')
   verdicts="$verdicts{\"check\":\"$c\",\"exit\":$rc,\"line\":$(python3 -c 'import json,sys;print(json.dumps(sys.argv[1]))' "$line"),\"obligations\":$(python3 -c 'import json,sys;print(json.dumps(sys.argv[1]))' "$ob")},"
 done
 python3 - "$NAME" "$PID" "$CRATE" "$suite" "$with_rc" "$without_rc" "[${verdicts%,}]" <<'EOF'
